@@ -107,7 +107,8 @@ def gen_opts(draw):
             "omit_defaults": draw(st.booleans()), "single_list": draw(st.booleans()),
             "reverse_points": draw(st.booleans()), "empty_unitset": draw(st.booleans()),
             "int_values": draw(st.booleans()), "false_as_0": draw(st.booleans()),
-            "type_signed": draw(st.sampled_from([None, None, "match", "true", "false", "opposite"]))}
+            "type_signed": draw(st.sampled_from([None, None, "match", "true", "false", "opposite"])),
+            "container_order": draw(st.sampled_from([None, None, "reversed", "rotated"]))}
 
 
 @st.composite
